@@ -226,7 +226,7 @@ impl Check for AuditReplica {
             simple_world(1..=3, 1..4),
             prop::collection::vec(prop_oneof![12 => Just(Link::Healthy), 1 => Just(Link::Closed), 1 => Just(Link::Missing)], 3),
             any::<bool>(),
-            prop::collection::vec(strat::any_event(false), 0..max),
+            prop::collection::vec(prop_oneof![12 => strat::any_event(false), 1 => strat::account_snapshot()], 0..max),
             prop::collection::vec((prop::collection::vec(strat::req_spec(true, false), 0..3), prop::collection::vec(strat::req_spec(true, false), 0..3)), 0..12),
             prop_oneof![Just(End::Shutdown), Just(End::FeedEnds)],
             any::<u16>(),
@@ -273,6 +273,9 @@ impl Check for AuditReplica {
                 if let EngineEvent::Account(barter::execution::AccountStreamEvent::Item(a)) = &p.event {
                     if let barter_execution::AccountEventKind::OrderSnapshot(s) = &a.kind {
                         reported.push((s.0.key.instrument.index(), s.0.key.cid.clone()));
+                    }
+                    if let barter_execution::AccountEventKind::Snapshot(s) = &a.kind {
+                        reported.extend(s.instruments.iter().flat_map(|i| i.orders.iter().map(|o| (o.key.instrument.index(), o.key.cid.clone()))));
                     }
                 }
                 // what was actually sent is read off the execution links (a fatal strategy tick does
